@@ -346,7 +346,6 @@ fn f4_rvrn_lookup_cache_respects_variation_tuple() {
 // ---------------------------------------------------------------------------------------------
 
 #[test]
-#[ignore = "F6 confirmed but no fix written (design decision); run with --ignored to reproduce"]
 fn f6_embedded_image_filter_applies_after_first_image_lookup() {
     let path = "sbix/sbix-dupe.ttf";
     let no_sbix = GlyphTableFlags::SVG | GlyphTableFlags::CBDT;
